@@ -82,13 +82,28 @@ def materialize(tree, parent):
     if tree["single"]:
         with open(root, "wb") as fd:
             fd.write(file_bytes(tree["files"][0]))
+        if tree["files"][0].get("x"):
+            os.chmod(root, 0o755)
         return root
     os.mkdir(root)
+    later = []
     for f in tree["files"]:
         p = os.path.join(root, *f["path"])
         os.makedirs(os.path.dirname(p), exist_ok=True)
+        if f.get("hardlink") is not None:
+            later.append((f, p))
+            continue
         with open(p, "wb") as fd:
             fd.write(file_bytes(f))
+        if f.get("x"):
+            os.chmod(p, 0o755)
+    for f, p in later:
+        os.link(os.path.join(root, *tree["files"][f["hardlink"]]["path"]), p)
+    for link in tree.get("dirlinks", []):
+        # a symbolic link to a sibling directory (only generated where a property's domain admits it)
+        p = os.path.join(root, *link["path"])
+        if not os.path.lexists(p) and os.path.isdir(os.path.join(os.path.dirname(p), link["target"])):
+            os.symlink(link["target"], p)
     return root
 
 
